@@ -396,39 +396,70 @@ def run(ctx):
     memo_key_rule(ctx, r, only_module="clikit.ui.components.exception_trace")
 
     # ---------------------------------------------------------------- R9
-    r = ctx.rule("C20-R9", "EXC", "tokenising one source line out of its context (the frame's line at -v/-vv: an unfinished call, a "
-                 "continuation, the edge of a triple-quoted string) can raise tokenize.TokenError: every such call is under a handler "
-                 "for it", reference=1)
-    def tokenises(f):
-        return any(isinstance(c.func, ast.Attribute) and isinstance(c.func.value, ast.Name) and c.func.value.id == "tokenize" for c in q.calls(f))
+    r = ctx.rule("C20-R9", "EXC", "source that the tokenizer rejects does not stop the report: the frame's file need not be Python at all (a template "
+                 "compiled under its own file name), and a single frame line out of context is often an unfinished statement - every path from "
+                 "the trace renderer into the tokenizer passes a handler for tokenize.TokenError, at the call site or inside the highlighter", reference=3)
+    hl_cls = ctx.cls("clikit.ui.components.exception_trace.Highlighter")
+
+    def handler_names(cfg_, node_ids):
+        out = []
+        for nid in node_ids:
+            for s_, k in cfg_.succ[nid]:
+                sn = cfg_.nodes[s_]
+                if k == "e" and sn.kind == "except":
+                    h = sn.ast
+                    out.append(None if h.type is None else [norm(x) for x in (h.type.elts if isinstance(h.type, ast.Tuple) else [h.type])])
+        return out
+
+    def protected(cfg_, node_ids):
+        return any(h is None or any(nm.endswith("TokenError") or nm in ("Exception", "BaseException") for nm in h) for h in handler_names(cfg_, node_ids))
+
+    unsafe_memo = {}
+
+    def unsafe(f, depth=0):
+        """f can let a tokenizer error out: it drives the tokenizer outside a handler, or calls (outside a handler) a method of the highlighter that does"""
+        if f.qualname in unsafe_memo:
+            return unsafe_memo[f.qualname]
+        unsafe_memo[f.qualname] = False
+        cfg_ = ctx.cfg(f)
+        res = False
+        # the tokenizer is a generator: errors surface where it is iterated, i.e. anywhere in this function after it was created
+        tok_calls = [c for c in q.calls(f) if isinstance(c.func, ast.Attribute) and isinstance(c.func.value, ast.Name) and c.func.value.id == "tokenize"]
+        if tok_calls:
+            loops = [n for n in cfg_.nodes if n.kind == "for"]
+            sites = [n.id for c in tok_calls for n in cfg_.nodes_of(c)] + [n.id for n in loops]
+            if not all(protected(cfg_, [x]) for x in sites):
+                res = True
+        if not res and depth < 4:
+            for cs in ctx.cg.sites_in(f):
+                for t in cs.targets:
+                    if t.cls is hl_cls and t is not f and unsafe(t, depth + 1) and not protected(cfg_, [n.id for n in cfg_.nodes_of(cs.node)]):
+                        res = True
+        unsafe_memo[f.qualname] = res
+        return res
+
     n_tok = 0
-    for m in et.methods.values():
+    for m in sorted(et.methods.values(), key=lambda f: f.name):
         cfg = ctx.cfg(m)
         for cs in ctx.cg.sites_in(m):
-            if not any(ctx.cg.reaches(t, tokenises) for t in cs.targets if t.cls is not et):
-                continue
-            args = list(cs.node.args) + [k.value for k in cs.node.keywords]
-            partial = any(isinstance(x, ast.Attribute) and x.attr == "line" for a in args for x in walk_no_nested(a))
-            if not partial:
+            tg = [t for t in cs.targets if t.cls is hl_cls and ctx.cg.reaches(t, lambda f: any(isinstance(c.func, ast.Attribute) and isinstance(c.func.value, ast.Name) and c.func.value.id == "tokenize" for c in q.calls(f)))]
+            if not tg:
                 continue
             n_tok += 1
-            protected = False
-            for cn in cfg.nodes_of(cs.node):
-                for s_, k in cfg.succ[cn.id]:
-                    sn = cfg.nodes[s_]
-                    if k == "e" and sn.kind == "except":
-                        h = sn.ast
-                        names = [] if h.type is None else [norm(x) for x in (h.type.elts if isinstance(h.type, ast.Tuple) else [h.type])]
-                        if h.type is None or any(nm.endswith("TokenError") or nm in ("Exception", "BaseException") for nm in names):
-                            protected = True
-            if protected:
-                r.ok("%s: %s under a handler for TokenError" % (m.short, norm(cs.node)[:60]))
+            args = list(cs.node.args) + [k.value for k in cs.node.keywords]
+            what = "<frame line>" if any(isinstance(x, ast.Attribute) and x.attr == "line" for a in args for x in walk_no_nested(a)) else "<file content>"
+            here = protected(cfg, [n.id for n in cfg.nodes_of(cs.node)])
+            inside = not any(unsafe(t) for t in tg)
+            name_ = cs.node.func.attr if isinstance(cs.node.func, ast.Attribute) else norm(cs.node.func)
+            if here or inside:
+                r.ok("%s: %s(%s) - tokenizer errors handled %s" % (m.short, name_, what, "at the call" if here else "inside the highlighter"))
             else:
-                r.fail(m, cs.node, (cs.node.func.attr if isinstance(cs.node.func, ast.Attribute) else norm(cs.node.func)) + "(<frame line>) without TokenError handler", "%s tokenises a single frame line with no handler for tokenize.TokenError around it: "
-                       "a frame whose line is an incomplete statement makes rendering the trace raise" % m.short)
+                r.fail(m, cs.node, "%s(%s) without TokenError handler" % (name_, what), "%s hands %s to the tokenizer with no handler for tokenize.TokenError on the way: %s makes rendering the trace raise, "
+                       "and with exception catching on the error leaves run()" % (m.short, what, "a frame whose line is an incomplete statement" if what == "<frame line>" else
+                                                                                "a frame whose file is not Python source (a template compiled under its own name, a file edited since import)"))
     if n_tok == 0:
         r.vacuous_ok = True
-        r.note("no single-line tokenising call left in ExceptionTrace")
+        r.note("no tokenising call left in ExceptionTrace")
 
     # ---------------------------------------------------------------- R10
     r = ctx.rule("C20-R10", "TABLE", "one notion of 'line' in the snippet: the highlighter normalises line ends to '\\n' and the tokenizer counts "
